@@ -209,6 +209,7 @@ class Driver(object):
         self._bind_procs()
         self.kernel.fork_owner = self._fork_owner
         self.rpc = rpcinterface.SupervisorNamespaceRPCInterface(self.sup)
+        opts.setsignals()            # Supervisor.run() does this before runforever()
 
     def _bind_procs(self):
         for i in range(len(self.pcfgs)):
@@ -396,7 +397,13 @@ class Driver(object):
         elif kind == 'jobstop':
             k.child_jobstop(a[1])       # monitor-judged scripts only: nothing may happen to the process
         elif kind == 'signal':
-            self.options.signal_receiver.receive(a[1], None)
+            # delivered the way the kernel does it: to the handler supervisord installed (ServerOptions.setsignals);
+            # without one the default action applies - SIGCHLD is ignored, the others terminate the daemon
+            h = k.sig_handlers.get(a[1])
+            if callable(h):
+                h(a[1], None)
+            elif a[1] != 17:
+                raise simkernel.DaemonKilled(a[1])
         elif kind == 'poll':
             todo, self.pending = self.pending, []
             keep = []
@@ -480,6 +487,11 @@ class Driver(object):
             except asyncore_25.ExitNow:
                 self.kernel.trace.append(('exitnow',))
                 self.ended = 'exit'
+            except simkernel.DaemonKilled as e:
+                self.kernel.trace.append(('crash', 'killed by signal %s' % e.args[0]))
+                self.crash_tb = ('supervisord installed no handler for signal %s: its default action terminates the daemon '
+                                 'at once, without stopping any child' % e.args[0])
+                self.ended = 'crash'
             except Exception as e:   # anything else escaping the main loop
                 import traceback
                 self.crash_tb = traceback.format_exc()
